@@ -49,6 +49,11 @@ pub enum PendK {
     Issue,  // token issuance by a token manager (address index)
 }
 
+/// decimal text of a big-endian number
+pub fn num_dec(be: &[u8]) -> String {
+    multiversx_sc_scenario::num_bigint::BigUint::from_bytes_be(be).to_string()
+}
+
 fn word_nat(n: u128) -> Vec<u8> {
     nat(n)
 }
@@ -153,6 +158,8 @@ pub fn setup(rng: &mut Rng, sink: &mut Sink) -> World {
             EGLX
         ));
     }
+    // one holder of an astronomically large balance (amounts beyond 2^256)
+    sink.exec(&format!("acct {} 10000000000000000000 {}:0:{},{}:0:{}", hex::encode(user(7)), TOK, num_dec(&[vec![0x10u8], vec![0u8; 40]].concat()), MB, num_dec(&[vec![0x10u8], vec![0u8; 40]].concat())));
     let owner = user(0);
     let gs = sc("gas-service");
     sink.exec(&format!("deploy gas-service {} {} {}", hex::encode(&owner), hex::encode(&gs), args(&[user(6)])));
@@ -325,7 +332,18 @@ pub fn gen(rng: &mut Rng, n: usize, sink: &mut Sink, focus: &str) {
             factory_flow(rng, sink, &mut w, &user(1), &[7u8; 32], supply, &minter, true);
         }
         let steps = rng.range(12, 40);
-        for _ in 0..steps {
+        // one run in five: at some point the owner upgrades a service that was deployed by earlier code
+        let upgrade_at = if rng.chance(1, 5) { rng.below(steps) } else { u64::MAX };
+        for i in 0..steps {
+            if i == upgrade_at {
+                let owner = w.owner.clone();
+                sink.exec(&format!("wipe {}", hex::encode(&w.its)));
+                w.tx(sink, &owner, "upgradeContract", 0, "-", &[b"its".to_vec(), vec![5u8, 6u8]]);
+                for q in ["interchainTokenId", "linkedTokenId"] {
+                    w.query(sink, q, &[user(1), vec![7u8; 32]]);
+                }
+                w.query(sink, "canonicalInterchainTokenId", &[TOK.as_bytes().to_vec()]);
+            }
             step(rng, sink, &mut w, focus);
             w.observe(rng, sink);
         }
@@ -485,6 +503,33 @@ fn step(rng: &mut Rng, sink: &mut Sink, w: &mut World, focus: &str) {
                 }
                 sink.exec(&format!("query {} isMessageExecuted {}", hex::encode(&w.gw.addr), args(&[chain.clone(), id.clone()])));
                 w.query(sink, "transferWithDataLock", &[chain.clone(), id.clone()]);
+            }
+        }
+        2 if rng.chance(1, 14) => {
+            // a holder of an astronomically large balance sends an amount around 2^256: the message format cannot
+            // carry 2^256 or more, so such a transfer must be refused as a whole (nothing taken into custody)
+            let known: Vec<(Vec<u8>, String, u8)> = w.tokens.iter().filter(|t| !t.1.is_empty() && t.1 != "EGLD").cloned().collect();
+            if let Some((tid, tok, _k)) = known.first().cloned() {
+                let whale = user(7);
+                let shapes: [Vec<u8>; 5] = [
+                    { let mut v = vec![1u8]; v.extend(vec![0u8; 32]); v },                 // 2^256
+                    { let mut v = vec![1u8]; v.extend(vec![0u8; 30]); v.extend([1, 2]); v }, // 2^256 + 258
+                    vec![0xffu8; 32],                                                    // 2^256 - 1: the largest legal amount
+                    { let mut v = vec![0x01u8, 0x02]; v.extend(vec![0u8; 38]); v },        // 40 bytes
+                    { let mut v = vec![2u8]; v.extend(vec![0u8; 32]); v },                 // 2^257
+                ];
+                let amt = rng.pick(&shapes).clone();
+                let dec = num_dec(&amt);
+                let gas = *rng.pick(&[0u128, 0, 3]);
+                let chain = rng.pick(&[ETH.to_vec(), AVA.to_vec()]).clone();
+                let func = if rng.chance(1, 2) { "interchainTransfer" } else { "callContractWithInterchainToken" };
+                let last = if func == "interchainTransfer" { vec![] } else { b"data".to_vec() };
+                sink.exec(&format!(
+                    "tx {} {} {} 0 {}:0:{} {}",
+                    hex::encode(&whale), hex::encode(&w.its), func, tok, dec,
+                    args(&[tid.clone(), chain, b"0xRecipient".to_vec(), last, nat(gas)])
+                ));
+                sink.exec(&format!("bal {} {}", hex::encode(&whale), tok));
             }
         }
         2 => {
@@ -651,6 +696,42 @@ fn step(rng: &mut Rng, sink: &mut Sink, w: &mut World, focus: &str) {
                     w.tx(sink, &c, "setFlowLimits", 0, "-", &[nat(1), tid.clone(), nat(1), nat(lim)]);
                     w.query(sink, "flowLimit", &[tid]);
                 }
+                7 if rng.chance(1, 2) => {
+                    // two-step hand-over of the service's operator role: propose, (the proposer may give the role away
+                    // or propose to somebody else in between), accept — by the proposed account or by somebody else
+                    let op = w.operator.clone();
+                    let b = user(rng.below(6) as u8);
+                    w.tx(sink, &op, "proposeOperatorship", 0, "-", &[b.clone()]);
+                    match rng.below(4) {
+                        0 => {
+                            let c3 = user(rng.below(6) as u8);
+                            let out = w.tx(sink, &op, "transferOperatorship", 0, "-", &[c3.clone()]);
+                            if out.starts_with("ok") {
+                                w.operator = c3;
+                            }
+                        }
+                        1 => {
+                            let c3 = user(rng.below(6) as u8);
+                            w.tx(sink, &op, "proposeOperatorship", 0, "-", &[c3.clone()]);
+                            let out = w.tx(sink, &c3, "acceptOperatorship", 0, "-", &[op.clone()]);
+                            if out.starts_with("ok") {
+                                w.operator = c3;
+                            }
+                        }
+                        _ => {}
+                    }
+                    let acceptor = if rng.chance(3, 4) { b.clone() } else { user(rng.below(6) as u8) };
+                    let out = w.tx(sink, &acceptor, "acceptOperatorship", 0, "-", &[op.clone()]);
+                    if out.starts_with("ok") {
+                        w.operator = acceptor.clone();
+                    }
+                    // whoever went through the hand-over tries to use the role
+                    let (tid, _t, _k) = pick_token(rng, w);
+                    w.tx(sink, &acceptor, "setFlowLimits", 0, "-", &[nat(1), tid.clone(), nat(1), nat(*rng.pick(&[0u128, 7, 70]))]);
+                    w.query(sink, "flowLimit", &[tid]);
+                    w.query(sink, "isOperator", &[acceptor]);
+                    w.query(sink, "isOperator", &[op]);
+                }
                 7 => {
                     let newop = user(rng.below(6) as u8);
                     let c = if rng.chance(1, 2) { w.operator.clone() } else { c };
@@ -662,7 +743,15 @@ fn step(rng: &mut Rng, sink: &mut Sink, w: &mut World, focus: &str) {
                 8 if rng.chance(1, 2) => {
                     // the owner upgrades the service (same code; `upgrade()` is empty): nothing may change
                     let owner = w.owner.clone();
+                    if rng.chance(1, 2) {
+                        // … of a service that was deployed before the code under test was written
+                        sink.exec(&format!("wipe {}", hex::encode(&w.its)));
+                    }
                     w.tx(sink, &owner, "upgradeContract", 0, "-", &[b"its".to_vec(), vec![5u8, 6u8]]);
+                    for q in ["interchainTokenId", "linkedTokenId"] {
+                        w.query(sink, q, &[user(1), vec![7u8; 32]]);
+                    }
+                    w.query(sink, "canonicalInterchainTokenId", &[TOK.as_bytes().to_vec()]);
                     w.query(sink, "isPaused", &[]);
                     w.query(sink, "trustedAddress", &[ETH.to_vec()]);
                 }
